@@ -81,7 +81,8 @@ def history(draw):
         elif op == "merge":
             ops.append([op, draw(st.lists(st.integers(0, 50), min_size=1, max_size=3))]); n_pool += 1
         elif op == "copy":
-            ops.append([op, i, draw(st.booleans()), draw(st.booleans())]); n_pool += 1
+            # last field: the source is asked for its border / interior element lists BEFORE it is copied (0 = no, else which lists)
+            ops.append([op, i, draw(st.booleans()), draw(st.booleans()), draw(st.sampled_from([0, 0, 1, 2, 3]))]); n_pool += 1
         elif op == "boundary":
             ops.append([op, i, draw(st.booleans())]); n_pool += 1
         elif op == "load":
@@ -184,7 +185,41 @@ def fn(case, ctx):
     arrays = {}    # spec index -> numpy array handed to from_arrays (+ pristine copy)
     uid = [0]
 
+    def records_ok(m, model, where):
+        # the derived corner records of a produced mesh describe ITS elements: one corner per (face, vertex) / (cell, vertex) in
+        # order, one cell-face record per face of each cell (a merge of two volumes must carry the records of both)
+        F, C = model.F, model.C
+        if hasattr(m, "face_corners") and F:
+            fc = m.face_corners
+            exp = [(v, i) for i, f in enumerate(read_mesh(m)[2]) for v in f]
+            got = [(int(fc.element(k)), int(fc.adj(k))) for k in range(len(fc))]
+            ctx.check(got == exp, "records:face_corners", f"{where}: face corners (vertex, face) {got[:6]}.. ({len(got)}) do not list the faces' vertices {exp[:6]}.. ({len(exp)})")
+        if hasattr(m, "cell_corners") and C:
+            cc = m.cell_corners
+            exp = [(v, i) for i, c in enumerate(C) for v in c]
+            got = [(int(cc.element(k)), int(cc.adj(k))) for k in range(len(cc))]
+            ctx.check(got == exp, "records:cell_corners", f"{where}: cell corners (vertex, cell) {got[:6]}.. ({len(got)}) do not list the cells' vertices ({len(exp)} expected)")
+            cf = m.cell_faces
+            nface = {4: 4, 8: 6, 5: 5, 6: 5}
+            expn = sum(nface.get(len(c), 0) for c in C)
+            Fm = read_mesh(m)[2]
+            good = len(cf) == expn
+            if good:
+                for k in range(len(cf)):
+                    f, c = int(cf.element(k)), int(cf.adj(k))
+                    if not (0 <= c < len(C) and 0 <= f < len(Fm) and set(Fm[f]) <= set(C[c])):
+                        good = False
+                        break
+            ctx.check(good, "records:cell_faces", f"{where}: {len(cf)} cell-face records for {len(C)} cells ({expn} expected), or a record that is not a face of its cell")
+
     def add(m, model, parents=()):
+        if not getattr(model, "no_conn", False):
+            try:
+                records_ok(m, model, f"mesh produced at step {uid[0]}")
+            except Exception as e:
+                if type(e).__name__ in ("Violation", "HarnessError", "Inconclusive", "MalformedAnswer"):
+                    raise
+                ctx.fail("records:unreadable", f"corner records of a produced mesh cannot be read: {type(e).__name__}: {e}")
         model.id = uid[0]; uid[0] += 1
         for p in parents:
             model.family.add(p.id); p.family.add(model.id)
@@ -331,8 +366,28 @@ def fn(case, ctx):
             ctx.label("producer=merge", f"merge-repeats={len(set(id(x[0]) for x in items)) < len(items)}")
         elif kind == "copy":
             m0, mdl0 = pick(op[1])
+            LISTS = ("boundary_vertices", "interior_vertices", "boundary_edges", "interior_edges", "boundary_faces", "interior_faces")
+            preq = op[4] if len(op) > 4 else 0
+            shared_ok = not getattr(mdl0, "no_conn", False) and mdl0.cls in ("SurfaceMesh", "VolumeMesh")
+            if preq and shared_ok:
+                for nm in LISTS[:2 * preq]:
+                    try: getattr(m0, nm)
+                    except Exception: shared_ok = False
             ok, m = ctx.call("produce:copy", M.mesh.copy, m0, op[2], op[3])
             if not ok: continue
+            if preq and shared_ok:
+                # lists handed out by the copy are the copy's: editing one in place must not change what the source hands out
+                ctx.label("copy-after-border-lists-were-queried")
+                for nm in LISTS:
+                    try:
+                        lc = getattr(m, nm); before = list(getattr(m0, nm))
+                    except Exception:
+                        continue
+                    if isinstance(lc, list):
+                        lc.append(-7); lc.reverse()
+                        after = list(getattr(m0, nm))
+                        lc.reverse(); lc.pop()
+                        ctx.check(after == before, "copy:shared-element-list", f"{where}: editing the copy's {nm} list in place changed the source's {nm}: {after[:8]} (was {before[:8]})")
             got = snapshot(m)
             ctx.check(np.array_equal(got.V, read_mesh(m0)[0]) and got.E == mdl0.E and got.F == mdl0.F and got.C == mdl0.C and got.cls == mdl0.cls,
                       "copy:differs", f"{where}: the copy does not equal its source")
